@@ -261,8 +261,8 @@ def run(chk):
             vrun.build("plain")
             cases = own_cases(random.Random(chk.seed + 7), thorough, tiny=not thorough)[: (40 if thorough else 6)] + file_cases(random.Random(chk.seed + 8), d, thorough, tiny=True)
             vrun.run_sharded(cases, shards=16, wall_s=3000 if thorough else 1200)
-        # ---------------- miri
-        if use("miri"):
+        # ---------------- miri (thorough tier only: building the interpreter's copy of the dependency tree alone takes ~10 minutes)
+        if thorough and use("miri"):
             cases = own_cases(random.Random(chk.seed + 9), thorough, tiny=True)[: (16 if thorough else 4)] + file_cases(random.Random(chk.seed + 10), d, thorough, tiny=True)[: (6 if thorough else 2)]
             if thorough:
                 cases += own_cases(random.Random(chk.seed + 11), thorough, tiny=True, native=True)[:4]
@@ -276,7 +276,7 @@ def run(chk):
         chk.extra[f"operators_{v}"] = obs.ops.get(v, {})
         chk.floor(st["cases"] >= 2, f"only {st['cases']} cases completed under {v}")
     chk.extra["build_seconds"] = variants_built
-    for v in ("asan", "tsan", "plain", "miri"):
+    for v in ("asan", "tsan", "plain") + (("miri",) if thorough else ()):
         if v not in obs.stats:
             chk.inconc(f"no executions observed under {v}")
     chk.sample({"variants": {v: {k: (sorted(x) if isinstance(x, set) else x) for k, x in st.items()} for v, st in obs.stats.items()}})
